@@ -56,8 +56,12 @@ def newtype_items(T, width):
 # closure's postcondition; an edited chunk size fails the caller's postcondition); the closure contract is the element
 # decode the property states: the big-endian u16 of the two bytes / the byte itself
 def r17_chunks(T):
-    return (r"\(([^()\n]*)\)\s*\.chunks\(([^()]*)\)\s*\.map\(\|(\w+)\| (.*?)\)\s*\.collect\(\)",
+    return (r"\(?(\w+\[[^\]\n]*\])\)?\s*\.chunks\(([^()]*)\)\s*\.map\(\|(\w+)\| (.*?)\)\s*\.collect\(\)",
             r"chunks_map_collect(&(\1), \2, |\3: &[u8]| -> (y: %s) requires \3@.len() == 2 ensures y.0 as int == be16s(\3@, 0) { proof { lemma_shl8_or(\3@[0], \3@[1]); } \4 })" % T)
 def r17_iter(T):
-    return (r"\(([^()\n]*)\)\s*\.iter\(\)\s*\.map\(\|&(\w+)\| (.*?)\)\s*\.collect\(\)",
+    return (r"\(?(\w+\[[^\]\n]*\])\)?\s*\.iter\(\)\s*\.map\(\|&(\w+)\| (.*?)\)\s*\.collect\(\)",
             r"iter_map_collect(&(\1), |\2_ref: &u8| -> (y: %s) ensures y.0 == *\2_ref { let \2 = *\2_ref; \3 })" % T)
+
+# solver hints for the list helpers (optional: skipped when the anchored statement is gone): `len & 1` is `len % 2`
+PARITY_PARAM = [{"at_start": True, "text": "    proof { lemma_parity(len); }"}]
+PARITY_LOCAL = [{"after": r"let (\w+) = i\.len\(\);", "text": "    proof { lemma_parity({g1}); }", "optional": True}]
